@@ -133,6 +133,10 @@ class Regions:
         newcls.regions = self.regions.copy()
         return newcls
 
+    def __copy__(self):
+        # copy.copy() must not share the list with the original
+        return self.copy()
+
     @classmethod
     def get_formats(cls):
         """
